@@ -31,6 +31,34 @@ def parse_u64(tok):
 
 # ----------------------------------------------------------------------------------------- C13
 
+def read_go(words):
+    """The oracle's reading of the words after `go` (UCI: keyword value pairs, later ones override,
+    a keyword takes the next word as its value whatever it is, unknown words are skipped)."""
+    t = {}
+    i = 0
+    while i < len(words):
+        w = words[i]
+        if w in ("wtime", "btime", "winc", "binc", "movetime", "depth"):
+            t[w] = words[i + 1] if i + 1 < len(words) else None
+            i += 2
+        else:
+            if w == "infinite":
+                t["infinite"] = "1"
+            i += 1
+    return {k: v for k, v in t.items() if v is not None or k == "infinite"} | {k: "" for k, v in t.items() if v is None}
+
+
+RAW_GO = [
+    "wtime 100 wtime 90000 btime 90000 winc 0 binc 0", "wtime 90000 btime 90000 winc 0 binc 0 wtime", "wtime 90000 btime 90000 winc 0 binc 0 wtime x",
+    "wtime +90000 btime +90000 winc +0 binc +0", "wtime 090000 btime 0090000 winc 00 binc 0", "wtime 90000 btime 90000 winc 0 binc 0 movetime",
+    "movetime 50 movetime", "movetime 50 movetime 70", "movetime 50 infinite", "infinite movetime 50", "movetime infinite", "wtime infinite btime 5",
+    "wtime 1000 btime 1000 winc 100 binc 100 depth 300", "depth 1 wtime 90000 btime 90000 winc 0 binc 0", "wtime 9e4 btime 90000 winc 0 binc 0",
+    "wtime 90000 btime 90000 winc 0 binc -0", "wtime 90000 btime 90000 winc 0 binc 0x10", "wtime 90_000 btime 90000 winc 0 binc 0",
+    "wtime 18446744073709551615 btime 18446744073709551615 winc 18446744073709551615 binc 18446744073709551615",
+    "wtime 18446744073709551616 btime 1 winc 1 binc 1", "searchmoves e2e4 wtime 90000 btime 90000 winc 0 binc 0", "ponder wtime 90000 btime 90000 winc 0 binc 0 movestogo 40",
+    "wtime  90000\tbtime 90000 winc 0 binc 0", "movetime +", "movetime", "wtime 5 btime", "",
+]
+
 def c13_tuples(r, tier):
     brk = [0, 1, 4, 5, 6, 149, 150, 151, 154, 155, 156, 1000, 7499, 7500, 7501, 7749, 7750, 7751, 60000, 10 ** 7,
            2 ** 32, 2 ** 53 - 1, 2 ** 53, 2 ** 53 + 1, 2 ** 63, U64 - 1, U64]
@@ -61,6 +89,7 @@ def c13_tuples(r, tier):
         if r.random() < 0.05:
             t["infinite"] = "1"
         out.append(t)
+    out += [{"raw": x} for x in RAW_GO for _ in (0, 1)]          # each for both sides
     for mt in (0, 1, 4, 5, 6, 100, U64):
         out.append({"movetime": str(mt)})
         out.append({"movetime": str(mt), "wtime": "1000", "btime": "1000", "winc": "0", "binc": "0"})
@@ -80,13 +109,17 @@ def check_c13(rep, tier):
         for i, t in enumerate(tuples):
             side = "w" if i % 2 == 0 else "b"
             e.send("position startpos" if side == "w" else "position fen " + BLACK_FEN)
-            words = ["go"]
-            for k in ("wtime", "btime", "winc", "binc", "movetime"):
-                if k in t:
-                    words += [k, t[k]]
-            if t.get("infinite"):
-                words.append("infinite")
-            cmd = " ".join(words)
+            if "raw" in t:
+                cmd = ("go " + t["raw"]).rstrip() if t["raw"] else "go"
+                t = read_go(t["raw"].split())
+            else:
+                words = ["go"]
+                for k in ("wtime", "btime", "winc", "binc", "movetime"):
+                    if k in t:
+                        words += [k, t[k]]
+                if t.get("infinite"):
+                    words.append("infinite")
+                cmd = " ".join(words)
             e.send(cmd)
             e.send("stop")
             lines = e.sync(30)
@@ -109,11 +142,10 @@ def check_c13(rep, tier):
     for t, side, cmd, times, best in results:
         own = parse_u64(t.get("wtime" if side == "w" else "btime"))
         sh = share_of(own) if own is not None else 0
-        f = lambda k: (str(parse_u64(t.get(k))) if parse_u64(t.get(k)) is not None else "-")
-        mcase.append("budget %s %s %s %s %s %s %s %d" % (f("wtime"), f("btime"), f("winc"), f("binc"), f("movetime"),
-                                                        "1" if t.get("infinite") else "0", side, sh))
+        # the model parses the words itself (Chess/Model/Go.lean); only the float expression comes from here
+        mcase.append("gocmd %s %d %s" % (side, sh, cmd[3:]))
     mres, _ = core.run_lean([mcase[i:i + 500] for i in range(0, len(mcase), 500)])
-    model = [x[0] if x else None for chunk in mres for x in chunk]
+    model = [x[0].split(" limit")[0] if x else None for chunk in mres for x in chunk]
     shares_seen = []
     for (t, side, cmd, times, best), m in zip(results, model):
         if times is None:
@@ -220,6 +252,8 @@ def run_session(script, env=None, final_timeout=15.0):
                 got = lines
                 if dt > 2.0:
                     problems.append(f"isready took {dt:.1f} s after `{cmd}`")
+                if wait == "quiet" and any(l.startswith("bestmove") for l in got):
+                    problems.append("bestmove announced although no stop was sent, no time budget applies and the depth limit is out of reach")
             answers.append((cmd, got))
             best += sum(1 for l in got if l.startswith("bestmove"))
             if cmd.split()[0] == "go":
@@ -275,6 +309,11 @@ ADVERSARIAL = [
      [("position startpos", 0, None), ("go depth 3", 0, None), ("isready", 20, None), ("isready", 25, None), ("isready", 45, None),
       ("isready", 30, None), ("isready", 35, None), ("isready", 50, None), ("wait", 0, None), ("position startpos", 0, None),
       ("go depth 1", 0, "bestmove")]),
+    ("timer of a stopped search must not end a later search", {},
+     [("position startpos", 0, None), ("go movetime 400", 0, None), ("stop", 50, None), ("position startpos moves e2e4 e7e5", 0, None),
+      ("go infinite", 0, None), ("isready", 700, "quiet"), ("stop", 0, None), ("position startpos", 0, None),
+      ("go wtime 20000 btime 20000 winc 0 binc 0", 0, None), ("stop", 30, None), ("position startpos moves d2d4", 0, None),
+      ("go depth 30", 0, None), ("isready", 600, "quiet"), ("stop", 0, None)]),
     ("timer wake-up stretched", {"RUSTYBAIT_VERIF_TIMER_WAKEUP_MS": 200},
      [("position startpos", 0, None), ("go movetime 20", 0, "bestmove"), ("position startpos", 0, None), ("go movetime 20", 0, "bestmove")]),
     ("ucinewgame and isready while searching", {},
@@ -429,5 +468,25 @@ def check_c19(rep, tier):
         if fresh[i] is not None and fresh[i] != model_t and not rep.violations:
             rep.violation("model-vs-impl", f"correspondence:C19:transcript depth {d} @ {f}", f"engine {fresh[i]}\nmodel {model_t}",
                           replay_ops=[f"position fen {f}", f"go depth {d}"], no_input=True)
+    # deeper searches, implementation only (the model is too slow there): quiet positions with many near-equal moves,
+    # where anything that survives the reset (table, history counters, killers, a sleeping timer) changes the answer
+    E2E4 = "rnbqkbnr/pppp1ppp/8/4p3/4P3/8/PPPP1PPP/RNBQKBNR w KQkq - 0 2"
+    deep = [(roots.START, 6), (roots.START, 7), (E2E4, 6), (E2E4, 7), (roots.PERFT[1], 5), (roots.START, 8)]
+    if tier == "thorough":
+        deep += [(f, 6) for f in roots.ALL[:12]]
+    heavy = ["position startpos", "go depth 8", "wait", "position startpos moves e2e4 e7e5", "go depth 7", "wait",
+             "position startpos", "go movetime 250", "stop", "ucinewgame"]
+    with cf.ThreadPoolExecutor(max_workers=8) as ex:
+        dfresh = list(ex.map(lambda j: engine_search(*j), deep))
+        dreset = list(ex.map(lambda j: engine_search(j[0], j[1], prelude=heavy), deep))
+    for (f, d), a, b in zip(deep, dfresh, dreset):
+        stats["runs"] += 2
+        kinds["deep-fresh"] += 1
+        kinds["deep-after-ucinewgame"] += 1
+        if a is None or b is None:
+            rep.violation("impl-vs-spec", f"no bestmove for go depth {d} (deep) @ {f}", "", replay_ops=heavy + [f"position fen {f}", f"go depth {d}"])
+        elif a != b:
+            rep.violation("impl-vs-spec", f"fixed-depth search not reproducible (after searches + ucinewgame vs fresh), depth {d} @ {f}",
+                          f"after reset: {b[-4:]}\nfresh: {a[-4:]}", replay_ops=heavy + [f"position fen {f}", f"go depth {d}"])
     stats["jobs"] = len(jobs)
     return stats, kinds, [f"position fen {f} ; go depth {d}" for f, d in jobs[:5]]
